@@ -3,9 +3,9 @@
 import json, subprocess
 ALL = ["C%02d" % i for i in range(1, 21)]
 CHECKS = {
- "C07": dict(level="fault_enumeration", design="5/C07", technique="deterministic simulation with fault injection: seeded fs histories against the real turmoil-fs, a crash injected after every prefix (fresh Fs per prefix) and crash-continue-crash, oracle = durable image of an inode-based reference model (admissible sets under sync_probability / torn-write block_size)",
+ "C07": dict(level="fault_enumeration", design="5/C07", technique="deterministic simulation with fault injection: seeded fs histories against the real turmoil-fs, a crash injected after every prefix (fresh Fs per prefix) and crash-continue-crash, driven directly against an entered Fs and as host programs inside a running turmoil::Sim (Sim::crash/bounce, two hosts with the same paths), front-ends std shim / tokio shim / io_uring; oracle = durable image of an inode-based reference model (admissible sets under sync_probability / torn-write block_size)",
    text="Every history prefix of every seeded workload is crashed and the complete post-crash tree is compared with the reference durable image; histories are small (<=14 ops, 10 path names) so the crash-point dimension is enumerated completely per workload while workloads, knobs and front-ends are sampled by seed. A clean run is evidence over the sampled histories, not a proof.",
-   note="Trusted: the reference model in harness/src/fskit/model.rs (written from the property text; unit tests in the same file), the std/tokio shims as the only way in. The embedder is the harness itself (turmoil_fs::enter + Fs::crash), which is what Sim::crash does per host. Known findings C07-K1..K4 (path-keyed pending log) are excluded from 95% of the histories by generator guards and matched by predicate in the remaining 5%."),
+   note="Trusted: the reference model in harness/src/fskit/model.rs (written from the property text; unit tests in the same file), the std/tokio shims as the only way in. In the direct driver the embedder is the harness itself (turmoil_fs::enter + Fs::crash); the in-Sim driver goes through Sim::step/crash/bounce. Known findings C07-K1..K4 (path-keyed pending log) are excluded from 95% of the histories by generator guards and matched by predicate in the remaining 5%."),
  "C10": dict(level="exploration", design="5/C10", technique="deterministic simulation: seeded state-aware operation histories through the std and tokio shims of the real turmoil-fs on 1-2 hosts, virtual time advanced between ops, syncs inserted anywhere; oracle = inode-based POSIX reference tree compared after every op (return value + full sweep) plus the sync-free metamorphic twin",
    text="Seeded exploration of operation histories (no fault by definition of the property; the adversary is the history, the sync placement and the passage of time). Each op's return and a full sweep of every path are compared with the reference tree, so a divergence is caught at the op that causes it.",
    note="Trusted: the reference model (fskit/model.rs). Error kinds compared for NotFound/AlreadyExists/DirectoryNotEmpty, otherwise only Ok-vs-Err. Known findings C10-K1..K4 (handles and pending ops are keyed by path) are excluded from 95% of the histories by generator guards and matched by predicate in the rest; seven defects were repaired (fixed entries in known_findings.json)."),
